@@ -75,6 +75,7 @@ type site struct {
 	PC     string
 	Events int // capped at 8 by the runtime log
 	B      int // log2 buckets of the largest map seen there
+	Count  int // entries of the largest map seen there
 }
 
 var scratch, binDir, corpusDir string
@@ -242,7 +243,7 @@ func parseDump(path string) []site {
 	var order []string
 	for _, line := range strings.Split(string(b), "\n") {
 		f := strings.Fields(line)
-		if len(f) != 4 || f[0] != "S" {
+		if (len(f) != 4 && len(f) != 5) || f[0] != "S" {
 			continue
 		}
 		n, _ := strconv.ParseInt(f[2], 16, 64)
@@ -258,6 +259,11 @@ func parseDump(path string) []site {
 		}
 		if int(bb) > s.B {
 			s.B = int(bb)
+		}
+		if len(f) == 5 {
+			if cn, _ := strconv.ParseInt(f[4], 16, 64); int(cn) > s.Count {
+				s.Count = int(cn)
+			}
 		}
 	}
 	var out []site
@@ -514,7 +520,15 @@ func main() {
 		for _, s := range ci.sites {
 			var rots []int
 			if s.B == 0 {
-				rots = []int{1, 5}
+				// a single-bucket map with k entries has (at most) k distinct iteration orders: the rotations of its
+				// slots. Quick starts it at every slot up to its entry count, thorough at every slot of the bucket.
+				rots = nil
+				for k := 1; k <= 7 && k <= s.Count; k++ {
+					rots = append(rots, k)
+				}
+				if len(rots) == 0 {
+					rots = []int{1}
+				}
 				if run.Thorough() {
 					rots = []int{1, 2, 3, 4, 5, 6, 7}
 				}
